@@ -43,6 +43,10 @@ struct State {
     events: Vec<String>,
     deadlock: Option<String>,
     max_decisions: usize,
+    /// eager mode: a thread asking for the writer lock may be released while the lock is held; it then
+    /// really blocks inside the lock call (whatever the code does before the lock call runs early)
+    eager: bool,
+    blocked: Vec<bool>,
 }
 
 pub struct Sched {
@@ -84,6 +88,7 @@ impl Sched {
                 }
             }
             "begin.locked" => {
+                st.blocked[tid] = false;
                 if arg == 1 {
                     st.writer_open = Some(tid);
                 } else {
@@ -93,7 +98,10 @@ impl Sched {
             }
             "resize.before_write_lock" => Want::MapWriteLock,
             "user.tx_closed_w" => {
-                st.writer_open = None;
+                // (a thread that was blocked inside the lock call may already have taken the lock over)
+                if st.writer_open == Some(tid) {
+                    st.writer_open = None;
+                }
                 Want::Nothing
             }
             "user.tx_closed_r" => {
@@ -108,18 +116,27 @@ impl Sched {
             eprintln!("{}:{}:{}", tid, name, arg);
         }
         st.parked[tid] = Some((name.to_string(), arg, want));
-        st.current = None;
+        if st.current == Some(tid) {
+            st.current = None;
+        }
         self.cv.notify_all();
         while st.current != Some(tid) {
             st = self.cv.wait(st).unwrap();
         }
         st.parked[tid] = None;
+        if st.blocked[tid] {
+            // released although the lock is held: the scheduler does not wait for us
+            st.current = None;
+            self.cv.notify_all();
+        }
     }
 
     fn finish(&self, tid: usize) {
         let mut st = self.mu.lock().unwrap();
         st.finished[tid] = true;
-        st.current = None;
+        if st.current == Some(tid) {
+            st.current = None;
+        }
         self.cv.notify_all();
     }
 
@@ -149,12 +166,24 @@ impl Sched {
                 return;
             }
             // every unfinished thread must be parked before we decide
-            let all_parked = (0..st.nthreads).all(|t| st.finished[t] || st.parked[t].is_some());
+            // (a thread blocked inside the writer lock call is settled as long as the lock is held)
+            let all_parked = (0..st.nthreads).all(|t| st.finished[t] || st.parked[t].is_some() || (st.blocked[t] && st.writer_open.is_some()));
             if !all_parked {
                 st = self.cv.wait(st).unwrap();
                 continue;
             }
             let mut en: Vec<usize> = (0..st.nthreads).filter(|t| self.enabled(&st, *t)).collect();
+            let eager_ok = st.eager && st.writer_open.is_some() && st.blocked.iter().all(|b| !*b);
+            let eager: Vec<usize> = if eager_ok {
+                (0..st.nthreads).filter(|t| !en.contains(t) && matches!(st.parked[*t].as_ref().map(|p| p.2), Some(Want::WriterLock))).collect()
+            } else {
+                Vec::new()
+            };
+            // an eager release needs somebody else who can run (the lock holder), or nothing would ever arrive
+            if !en.is_empty() {
+                en.extend(eager.iter().cloned());
+                en.sort();
+            }
             if en.is_empty() {
                 // a reader that is only waiting (in its script) for more commits gives up waiting when
                 // nothing else can run: that wait is part of the test program, not of the database
@@ -191,6 +220,20 @@ impl Sched {
             }
             if en.len() > 1 {
                 st.events.push(format!("D{}:{}:{:?}", d, choice, en));
+            }
+            if eager.contains(&choice) {
+                st.events.push(format!("E{}:{}", d, choice));
+                st.blocked[choice] = true;
+                st.current = Some(choice);
+                self.cv.notify_all();
+                while st.current.is_some() {
+                    st = self.cv.wait(st).unwrap();
+                }
+                // give it time to run up to the lock call and block there (only detection power depends on this)
+                drop(st);
+                std::thread::sleep(std::time::Duration::from_millis(3));
+                st = self.mu.lock().unwrap();
+                continue;
             }
             st.last = Some(choice);
             st.current = Some(choice);
@@ -267,6 +310,8 @@ pub fn run_once(program: &str, path: &str, preempt: HashMap<usize, usize>, rando
             events: Vec::new(),
             deadlock: None,
             max_decisions: 20000,
+            eager: std::env::var("JH_CONC_EAGER").is_ok(),
+            blocked: vec![false; nthreads],
         }),
         cv: Condvar::new(),
     });
@@ -450,8 +495,9 @@ pub fn main(args: &[String]) {
         let mut pre: Vec<String> = m.iter().map(|(a, b)| format!("{}:{}", a, b)).collect();
         pre.sort();
         let r = run_once(&program, &path, m, rnd, ncommits, nreaders, nwriters);
-        writeln!(out, "run {} program={} commits={} readers={} writers={} preempt={} random={} decisions={}", i, program, ncommits, nreaders, nwriters,
-                 if pre.is_empty() { "-".to_string() } else { pre.join(",") }, rnd.map(|x| x.to_string()).unwrap_or("-".into()), r.decisions).unwrap();
+        writeln!(out, "run {} program={} commits={} readers={} writers={} preempt={} random={} eager={} decisions={}", i, program, ncommits, nreaders, nwriters,
+                 if pre.is_empty() { "-".to_string() } else { pre.join(",") }, rnd.map(|x| x.to_string()).unwrap_or("-".into()),
+                 if std::env::var("JH_CONC_EAGER").is_ok() { 1 } else { 0 }, r.decisions).unwrap();
         if i == 0 {
             // what each transaction writes (the model derives the expected committed states from this)
             for (k, v) in iso_writer_ops(0) {
